@@ -377,3 +377,124 @@ Example C02_writer_keyed_maps_styles :
   Ok (b "WEBVTT" ++ [10; 10]%N ++ b "STYLE" ++ [10%N] ++ b "sa" ++ [10%N] ++ b "sb1" ++ [10%N] ++ b "sb2" ++ [10; 10]%N ++
       b "1" ++ [10%N] ++ b "00:00:01.000 --> 00:00:02.000" ++ [10%N] ++ b "a" ++ [10%N]).
 Proof. exact (proj1 keyed_styles). Qed.
+(* ---- the scanner's line limit (second audit, item N3; Proofs/LineBound.v, Proofs/LineBoundVtt.v) ----
+   The theorems above are stated on the unbounded line splitter (read_vtt data = read_vtt_lines (lines data) false).  The real
+   reader takes its lines from a bufio.Scanner with the default buffer: a line of 65536 bytes or more makes ReadFromWebVTT
+   fail with bufio.ErrTooLong.  A document whose one cue has a text line of 65536 letters satisfies repr_vdoc; the library
+   writes it and cannot read it back, so C02_write_read, C02_read_rendered (_lines on lines is not affected),
+   C02_write_read_via_rendering, C02_read_rendered_bytes_gen and C02_eol are true of the library only below that size.  The
+   statements that are true of the library carry the line bound; they are about read_vtt_lim max data counts = the reader over
+   the limit-aware scanner of C17 (buffer of max bytes -- the real value is max_scan_token = 65536 --, delivery schedule
+   counts), for EVERY max and EVERY schedule (lines_within: every line two bytes shorter than the buffer, the bound of
+   C17_readers_within_limit, enough for all three line ends; lines_within_lf: one byte shorter, exact for the LF-terminated
+   bytes of the writer; line_beyond_lf: some line of max bytes or more):
+   C02_write_read_within_limit       the round trip, bound on the written bytes;
+   C02_write_read_exact_limit        the writer's bytes are read back when no written line has max bytes or more, and
+                                     REFUSED (an error, never a shorter document) when one has;
+   C02_written_lines_within_limit, C02_write_read_doc_within_limit   the bound stated on the document: the header lines
+                                     (timestamp map, STYLE block, region definitions), per cue the NOTE lines, the timing line
+                                     (times and settings) and the text lines; the identifier line has at most 19 bytes;
+   C02_read_rendered_within_limit, C02_read_rendered_gen_within_limit, C02_eol_within_limit   every rendering, every line end;
+   C02_refused_beyond_limit          the refusal under the structural conditions of C02_write_is_rendering alone;
+   C02_line_bound_sharp              one cue with a text line of n letters (representable for every n > 0): read back iff
+                                     n + 1 <= max, for every max >= 30 and every schedule;
+   C02_needs_line_bound              the same by computation on a buffer of 48 bytes, with the error returned (EIO: the
+                                     scanner's error); 47 letters pass with LF and fail once the lines end in CR LF;
+   C02_real_line_bound               the real constant: 65535 letters are read back, 65536 refused, under every schedule,
+                                     while the document with 65536 letters satisfies repr_vdoc.
+   Replayed on the library by the harness suite vtt.linebound (lines of 65533 .. 65537 bytes). *)
+From Coq Require Import Arith.
+From Astisub Require Import Kit.ScanLim Proofs.ScanLimProofs Proofs.LineBound Proofs.LineBoundVtt.
+
+Theorem C02_write_read_within_limit : forall (max : nat) d so ro, (0 < max)%nat -> repr_vdoc d so ro ->
+  forall data, write_vtt d so ro = Ok data -> lines_within max (lines data) ->
+  forall counts, read_vtt_lim max data counts = Ok (ndoc d so ro).
+Proof. exact write_read_vtt_within. Qed.
+Print Assumptions C02_write_read_within_limit.
+
+Theorem C02_write_read_exact_limit : forall (max : nat) d so ro, (0 < max)%nat -> repr_vdoc d so ro ->
+  exists data, write_vtt d so ro = Ok data /\
+    (lines_within_lf max (render_vtt (w_hrend d so ro) (w_gdoc d so ro) (w_cues d) []) ->
+       forall counts, read_vtt_lim max data counts = Ok (ndoc d so ro)) /\
+    (line_beyond_lf max (render_vtt (w_hrend d so ro) (w_gdoc d so ro) (w_cues d) []) ->
+       forall counts, exists k, read_vtt_lim max data counts = Err k).
+Proof. exact write_read_vtt_exact. Qed.
+Print Assumptions C02_write_read_exact_limit.
+
+Theorem C02_written_lines_within_limit : forall (max : nat) d so ro, (21 <= max)%nat -> repr_vdoc d so ro ->
+  lines_within max (hdr_lines d so ro) /\
+  Forall (fun it => lines_within max (note_lines (vi_comments it)) /\ (length (timing_line it) + 2 <= max)%nat /\
+                    lines_within max (text_lines (vi_lines it))) (vd_items d) ->
+  lines_within max (render_vtt (w_hrend d so ro) (w_gdoc d so ro) (w_cues d) []).
+Proof. exact vtt_lines_within. Qed.
+Print Assumptions C02_written_lines_within_limit.
+
+Theorem C02_write_read_doc_within_limit : forall (max : nat) d so ro, (21 <= max)%nat -> repr_vdoc d so ro ->
+  lines_within max (hdr_lines d so ro) /\
+  Forall (fun it => lines_within max (note_lines (vi_comments it)) /\ (length (timing_line it) + 2 <= max)%nat /\
+                    lines_within max (text_lines (vi_lines it))) (vd_items d) ->
+  exists data, write_vtt d so ro = Ok data /\ forall counts, read_vtt_lim max data counts = Ok (ndoc d so ro).
+Proof. exact write_read_vtt_doc_within. Qed.
+Print Assumptions C02_write_read_doc_within_limit.
+
+Theorem C02_read_rendered_within_limit : forall (max : nat) e h g cues eof, (0 < max)%nat -> eol_ok e ->
+  rendering_okb h g cues eof = true -> lines_withinb max (render_vtt h g cues eof) = true ->
+  forall counts, read_vtt_lim max (render_eol e (render_vtt h g cues eof)) counts = Ok (denote_vtt g cues).
+Proof. exact read_rendered_vtt_okb_within. Qed.
+Print Assumptions C02_read_rendered_within_limit.
+
+Theorem C02_read_rendered_gen_within_limit : forall (max : nat) e h g cues eof, (0 < max)%nat -> eol_ok e ->
+  hrend_ok h g -> gdoc_ok g ->
+  Forall (fun p => gcue_ok (denote_regions g) (snd p) /\ crend_ok (fst p) (snd p)) cues ->
+  Forall (fun p => cr_before (fst p) <> []) (tl cues) -> Forall blank eof ->
+  lines_within max (render_vtt h g cues eof) ->
+  forall counts, read_vtt_lim max (render_eol e (render_vtt h g cues eof)) counts = Ok (denote_vtt g cues).
+Proof. exact read_rendered_vtt_within. Qed.
+Print Assumptions C02_read_rendered_gen_within_limit.
+
+Theorem C02_eol_within_limit : forall (max : nat) e (ls : list str) counts, (0 < max)%nat -> eol_ok e ->
+  Forall brkfree ls -> lines_within max ls -> read_vtt_lim max (render_eol e ls) counts = read_vtt_lines ls false.
+Proof. exact read_vtt_lim_eol. Qed.
+Print Assumptions C02_eol_within_limit.
+
+Theorem C02_refused_beyond_limit : forall (max : nat) d so ro, vd_items d <> [] -> regions_keyed d ro -> times_nonneg d ->
+  Forall brkfree (render_vtt (w_hrend d so ro) (w_gdoc d so ro) (w_cues d) []) ->
+  line_beyond_lf max (render_vtt (w_hrend d so ro) (w_gdoc d so ro) (w_cues d) []) ->
+  exists data, write_vtt d so ro = Ok data /\ forall counts, exists k, read_vtt_lim max data counts = Err k.
+Proof. exact write_vtt_beyond. Qed.
+Print Assumptions C02_refused_beyond_limit.
+
+(* the bound is needed and sharp: a_vdoc n = one cue, one text line of n letters a (timing line: 29 bytes); representable
+   for every n > 0, read back iff n + 1 <= max, for every buffer size above the timing line and every schedule *)
+Theorem C02_line_bound_sharp : forall (max : nat) (n : N), (30 <= max)%nat -> (0 < n)%N ->
+  repr_vdoc (a_vdoc n) [] [] /\
+  exists data, write_vtt (a_vdoc n) [] [] = Ok data /\ read_vtt data = Ok (ndoc (a_vdoc n) [] []) /\
+    ((N.to_nat n + 1 <= max)%nat -> forall counts, read_vtt_lim max data counts = Ok (ndoc (a_vdoc n) [] [])) /\
+    ((max < N.to_nat n + 1)%nat -> forall counts, exists k, read_vtt_lim max data counts = Err k).
+Proof. exact vtt_line_bound_sharp. Qed.
+Print Assumptions C02_line_bound_sharp.
+
+Theorem C02_real_line_bound :
+  repr_vdoc (a_vdoc 65536) [] [] /\
+  (exists data, write_vtt (a_vdoc 65535) [] [] = Ok data /\
+     forall counts, read_vtt_lim max_scan_token data counts = Ok (ndoc (a_vdoc 65535) [] [])) /\
+  (exists data, write_vtt (a_vdoc 65536) [] [] = Ok data /\ read_vtt data = Ok (ndoc (a_vdoc 65536) [] []) /\
+     forall counts, exists k, read_vtt_lim max_scan_token data counts = Err k).
+Proof. exact vtt_real_line_bound_full. Qed.
+Print Assumptions C02_real_line_bound.
+
+Example C02_needs_line_bound :
+  read_vtt (vtt_bytes (a_vdoc 48)) = Ok (ndoc (a_vdoc 48) [] []) /\
+  read_vtt_lim 48 (vtt_bytes (a_vdoc 48)) [] = Err EIO /\
+  read_vtt_lim 48 (vtt_bytes (a_vdoc 48)) [7%nat; 0%nat; 100%nat] = Err EIO /\
+  lines_withinb 48 (lines (vtt_bytes (a_vdoc 46))) = true /\
+  read_vtt_lim 48 (vtt_bytes (a_vdoc 46)) [7%nat; 0%nat; 100%nat] = Ok (ndoc (a_vdoc 46) [] []) /\
+  lines_withinb 48 (lines (vtt_bytes (a_vdoc 47))) = false /\
+  read_vtt_lim 48 (vtt_bytes (a_vdoc 47)) [7%nat; 0%nat; 100%nat] = Ok (ndoc (a_vdoc 47) [] []) /\
+  read_vtt_lim 48 (render_eol [CR; LF] (lines (vtt_bytes (a_vdoc 47)))) [7%nat; 0%nat; 100%nat] = Err EIO /\
+  read_vtt (render_eol [CR; LF] (lines (vtt_bytes (a_vdoc 47)))) = Ok (ndoc (a_vdoc 47) [] []).
+Proof. exact vtt_needs_line_bound. Qed.
+Example C02_real_line_bound_computed :
+  read_vtt_lim max_scan_token (vtt_bytes (a_vdoc 65536)) [] = Err EIO /\
+  read_vtt_lim max_scan_token (vtt_bytes (a_vdoc 65536)) [max_scan_token; 0%nat] = Err EIO.
+Proof. exact vtt_real_line_bound_computed. Qed.
